@@ -7,7 +7,7 @@ use quizx::gate::GType::*;
 
 pub fn run(cx: &mut Ctx) {
     cx.check("random_circuit_builder", |cb| {
-        for seed in 0..40u64 { for &(q, d) in &[(2usize, 30usize), (3, 50), (7, 80)] {
+        for seed in 0..40 * crate::scale() { for &(q, d) in &[(2usize, 30usize), (3, 50), (7, 80)] {
             let mk = || Circuit::random().seed(seed).qubits(q).depth(d).p_cnot(0.3).p_h(0.2).p_t(0.25).build();
             let v = guard(mk).and_then(|c| {
                 if guard(mk)? != c { return Err("two builds with the same seed differ".into()); }
@@ -22,7 +22,7 @@ pub fn run(cx: &mut Ctx) {
         } }
     });
     cx.check("hidden_shift_promise", |cb| {
-        for seed in 0..30u64 { for &(q, n_ccz, depth) in &[(6usize, 1usize, 6usize), (8, 2, 10), (10, 3, 12)] {
+        for seed in 0..30 * crate::scale() { for &(q, n_ccz, depth) in &[(6usize, 1usize, 6usize), (8, 2, 10), (10, 3, 12)] {
             let mk = || Circuit::random_hidden_shift().seed(seed).qubits(q).n_ccz(n_ccz).clifford_depth(depth).build();
             let v = guard(mk).and_then(|(c, shift)| {
                 let (c2, s2) = guard(mk)?;
@@ -40,7 +40,7 @@ pub fn run(cx: &mut Ctx) {
         } }
     });
     cx.check("pauli_gadget_builder", |cb| {
-        for seed in 0..40u64 { for &(q, minw, maxw, den) in &[(4usize, 1usize, 4usize, 4usize), (6, 2, 3, 8), (5, 2, 4, 3), (5, 1, 2, 6)] {
+        for seed in 0..40 * crate::scale() { for &(q, minw, maxw, den) in &[(4usize, 1usize, 4usize, 4usize), (6, 2, 3, 8), (5, 2, 4, 3), (5, 1, 2, 6)] {
             let depth = 6;
             let mk = || Circuit::random_pauli_gadget().seed(seed).qubits(q).depth(depth).min_weight(minw).max_weight(maxw).phase_denom(den).build();
             let v = guard(mk).and_then(|c| {
